@@ -6,8 +6,9 @@ R=${SEEDREPO:-/repo}
 cd /verif
 for d in seeded/$ID-*; do
   [ -f $d/patch.diff ] || continue
-  if ! git -C $R apply --check $PWD/$d/patch.diff 2>/dev/null; then echo "$d: patch does not apply to current HEAD"; echo "patch does not apply to /repo HEAD any more (the site was changed by a fix: commit)" > $d/result.txt; continue; fi
-  git -C $R apply $PWD/$d/patch.diff
+  P=$PWD/$d/patch.diff; if ! git -C $R apply --check $P 2>/dev/null && [ -f $PWD/$d/patch.head.diff ]; then P=$PWD/$d/patch.head.diff; fi
+  if ! git -C $R apply --check $P 2>/dev/null; then echo "$d: patch does not apply to current HEAD"; echo "patch does not apply to /repo HEAD any more (the site was changed by a fix: commit)" > $d/result.txt; continue; fi
+  git -C $R apply $P
   DEMO=$(cd $d && PYTHONPATH=$R PYTHONHASHSEED=0 timeout 900 /venv/bin/python -W ignore demo.py >/dev/null 2>&1; echo $?)
   OUT=$(VERIF_REPO=$R ./check $ID --tier $TIER 2>/dev/null | grep -E "^VIOLATION|^$ID " | head -4)
   RC=$(echo "$OUT" | grep -c "^VIOLATION")
